@@ -268,3 +268,36 @@ def reload_case(case: dict[str, Any], root: str, store: str, fmt: str, deep: boo
         if not step("reload-main"):
             return out
     return out
+
+
+# A program in which every field of CacheMeta / CacheMetaEx has a non-default value in some module (ignored import
+# lines with and without codes, suppressed dependencies, dependencies of three priorities, indirect dependencies,
+# cached errors with notes, a module whose errors are ignored wholesale): run through reload_case in all four
+# store x format configurations so that the record round trip (world._hook_roundtrip) sees every field both ways.
+FIELD_CASE: dict[str, Any] = {
+    "name": "verifFieldWorld", "builtins": None, "typing": None, "deletes": [], "skip": None,
+    "main": """# flags: --show-error-codes --warn-unused-ignores
+from typing import TYPE_CHECKING
+import a
+import missing1  # type: ignore
+import missing2  # type: ignore[import-not-found]
+from b import nothing  # type: ignore[attr-defined]
+import missing3
+if TYPE_CHECKING:
+    import d
+def g() -> None:
+    import c
+    reveal_type(a.x)
+    reveal_type(b_f())
+from b import f as b_f
+y: int = a.x
+z = a.mk().attr
+""",
+    "files": {
+        "a.py": "import e\nx: str = ''\ndef mk() -> 'e.E':\n    return e.E()\n",
+        "b.py": "import a\ndef f() -> int:\n    return a.x  # type: ignore[return-value]\nimport missing4  # type: ignore\n",
+        "c.py": "# mypy: ignore-errors\nx: int = ''\n",
+        "d.py": "import a  # type: ignore[misc]\nv = 1 + ''\n",
+        "e.py": "class E:\n    attr: int = 0\n    def m(self) -> None:\n        return 1\n",
+    },
+}
